@@ -183,7 +183,8 @@ func Build(r *rand.Rand, root string, o Opts) error {
 	budget := o.MaxNodes
 	modes := []uint32{0644, 0755, 0600, 0, 04755, 02755, 01777, 06711, 0777, 0400}
 	owners := []int{0, 0, 1000, 65534, 12345, 2147483647}
-	times := [][2]int64{{0, 1}, {1000000000, 123456789}, {1700000000, 0}, {1, 0}, {2000000000, 999999999}, {1234567890, 500}}
+	// (also before 1970: stored as negative nanoseconds)
+	times := [][2]int64{{0, 1}, {1000000000, 123456789}, {1700000000, 0}, {1, 0}, {2000000000, 999999999}, {1234567890, 500}, {-12345678, 250000000}, {-2000000000, 0}}
 	attrs := func(p string, link bool) fix {
 		t := times[r.Intn(len(times))]
 		f := fix{p: p, mode: modes[r.Intn(len(modes))], uid: owners[r.Intn(len(owners))], gid: owners[r.Intn(len(owners))], sec: t[0], nsec: t[1], link: link}
